@@ -22,10 +22,17 @@ def run(ctx):
     tr = os.path.join(ctx.scratch, "closegate.ndjson")
     res = {}
 
+    # holder durations: a fixed grid over the whole wait limit (a retry schedule that thins out with time --
+    # back-off -- is prompt after short holds and late only after long ones) plus seeded ones
+    import random
+    rng = random.Random(ctx.seed)
+    grid = ctx.pick([0, 50, 500, 1300, 2000, 2700, 6500], [0, 50, 500, 1300, 2000, 2700, 3900, 5000, 5300, 6500, 7900, 9400, 11000])
+    grid = sorted(set(grid + [rng.randrange(1000, 9500, 10) for _ in range(ctx.pick(2, 6))]))
+
     def drive():
         try:
-            res["p"] = ctx.run_harness(["closegate", "-out", tr, "-durs", ctx.pick("0,50,500,2000", "0,50,500,2000,5000,11000"),
-                                        "-par", ctx.pick("6", "8")], timeout=900)
+            res["p"] = ctx.run_harness(["closegate", "-out", tr, "-durs", ",".join(map(str, grid)),
+                                        "-par", ctx.pick("10", "12")], timeout=1500)
         except BaseException as e:
             errs.append(e)
     ctx.harness()
